@@ -5,7 +5,7 @@ CONFIG = {
     "properties_files": ["theories/Pool/Properties.v"],
     "required_theorems": ["sectors_partition", "all_closed_all_free", "quota_conserved", "quota_monitor_accepts_model", "isolation", "write_refines_bytes", "read_refines_bytes", "file_refines_bytes", "truncate_refines_bytes", "seek_refines_regions", "allocator_words_init", "allocator_words_refine_flat", "allocator_words_free_contig", "allocator_words_free_list"],
     "harnesses": [
-        {"cmd": "pool", "cases_quick": 320, "cases_thorough": 12000, "shards_quick": 8, "shards_thorough": 32},
+        {"cmd": "pool", "cases_quick": 320, "cases_thorough": 6000, "shards_quick": 8, "shards_thorough": 96},
     ],
     "trusted_base": [
         "hand-written model coq/theories/Pool/Model.v of block_device_backed_file_pool.go, bitmap_sector_allocator.go (flat free bitmap + nextSector; the 64-bit word algorithm is transcribed separately in ProofsWords.v and proved equal to it), quota_enforcing_file_pool.go; tied by correspondence harness/cmd/pool on outputs, every allocator/device/hole-source call, Len() of every file and probed quota after every operation",
